@@ -130,6 +130,13 @@ def run(run):
                            key='%s writes registry.active' % fn.short)
             activation_pairing(run, F, E)
             observers(run, F, E)
+            if facts.cfg_has(c, 'S'):
+                # the flow rule for load() takes the index it reads to be one a save() wrote (precondition A3). That rests on save()
+                # encoding exactly the activity state into a buffer it has cleared first: the writer/reader field tables and the
+                # clear-before-write rule of C12.a are therefore obligations of C01 as well
+                from rules import c12 as _c12
+                _c12.field_tables(run, F, E)
+                run.relabel('C12.a', 'C01.f')
             facts.drop(F)
             cfgmod.clear_cache()
     from gen import static_units
